@@ -3,6 +3,7 @@ package eng
 import (
 	"fmt"
 	"go/token"
+	"go/types"
 	"strings"
 
 	"golang.org/x/tools/go/ssa"
@@ -133,6 +134,50 @@ func checkPadHelper(c *Check, w *World, tb *TB, rule string, f *ssa.Function) {
 		}
 	}
 	c.Decide(okAll, rule, fn, "pad-helper", "returns exactly `width` bytes: input[:width], or a fresh zeroed buffer with the input copied at offset 0 (right zero padding)", "padding helper deviates: "+why, pos)
+}
+
+// ruleConstructorIdentity: a suite built from a hand-made configuration (NewSuite) carries exactly that
+// configuration — in particular its suite-string text, which is the first part of the HMAC message.
+func ruleConstructorIdentity(c *Check, w *World, tb *TB, rule string) {
+	n := 0
+	for _, f := range w.ModuleFuncs(OtpPath) {
+		if f.Object() == nil || !f.Object().Exported() || f.Signature.Recv() != nil || len(f.Params) != 1 {
+			continue
+		}
+		if nm, ok := f.Params[0].Type().(*types.Named); !ok || nm.Obj().Name() != "SuiteConfig" {
+			continue
+		}
+		res := f.Signature.Results()
+		if res.Len() == 0 {
+			continue
+		}
+		if nm, ok := res.At(0).Type().(*types.Named); !ok || nm.Obj().Name() != "Suite" {
+			continue
+		}
+		n++
+		fn := FuncName(f)
+		rs := tb.Results(f, nil, nil, 0)
+		p0 := fmt.Sprintf("param(%s#0)", fn)
+		ok, got := true, ""
+		some := false
+		for _, a := range rs[0].Alts() {
+			if a.IsConst() && a.Sym == "nil" {
+				continue
+			}
+			some = true
+			cfgT := a
+			if a.Op == "struct" && a.Sym == "SuiteConfig" && len(a.Args) == 1 {
+				cfgT = a.Args[0]
+			}
+			if cfgT.String() != p0 {
+				ok, got = false, a.String()
+			}
+		}
+		c.Decide(ok && some, rule, fn, "constructor-identity", "the suite carries the given configuration unchanged (suite-string text included)", "the suite is built from "+clip(got, 200)+", not from the given configuration unchanged", w.Pos(f.Pos()))
+	}
+	if n == 0 {
+		c.Unk(rule, "otp", "constructor-identity", "no constructor from a SuiteConfig found (NewSuite)", "")
+	}
 }
 
 func runC05(c *Check, w *World) {
@@ -280,6 +325,7 @@ func runC05(c *Check, w *World) {
 		c.Bad("R05.4", fn, "validators-called", "the derivation does not run both suite.Validate() and input.Validate(cfg) before building the message", w.Pos(der.Pos()))
 	}
 	ruleSuiteAdmission(c, w, tb)
+	ruleConstructorIdentity(c, w, tb, "R05.4")
 	// contract facts for the table indices
 	iv.Assume[fld("Digits", CFG)] = Itv{bi(4), bi(10)}
 	iv.Assume[fld("Hash", CFG)] = Itv{bi(0), bi(2)}
@@ -324,7 +370,7 @@ func runC05(c *Check, w *World) {
 	checkRESTEndpoints(c, w, tb, ef, "R05.REST", "/ocra/generate")
 	c.Floor("R05.1", 8)
 	c.Floor("R05.2", 1)
-	c.Floor("R05.4", 3)
+	c.Floor("R05.4", 4)
 	c.Floor("R05.5", 5)
 }
 
